@@ -7,11 +7,19 @@ it; it is NOT decided.  Only these sub-clauses are visible in code shape:
 
 R1  starting-point attribution: per-segment altitude and time cell indices are
     the per-point indices with the *last* point dropped ([:-1]); state
-    variables likewise; at the antimeridian split the inserted point repeats
-    element i (the crossing segment's start), never i+1.
+    variables likewise; at the antimeridian split, on every path to a return,
+    latitude / altitude / time / each state variable are the way-points on that
+    side of element k plus ONE inserted point whose value is a plain copy of
+    element k (the crossing segment's start) — an inserted value computed any
+    other way (element k+1, an interpolation, ...) is reported as such — and the
+    inserted longitude is ±π on the side the path is on (decided by evaluating
+    it for both crossing signs).
 R2  matching lengths: cell, altitude, time, state and integrated outputs are
     all expanded by the one count vector (shared with C04-R3); flattened
-    lat/lon cell indices are masked by their own NaN masks.
+    lat/lon cell indices are masked by their own NaN masks; the four arrays of
+    the horizontal intersection are received under names of the same axis and
+    kind through whatever container carries them (nested tuples, records read
+    by position or field).
 R3  part-suffix agreement (T-ROLE): every first-/second-part quantity is
     computed from inputs of its own part, each output is looked up with its own
     index array (altitude indices index the altitude grid, ...), and halves are
@@ -23,6 +31,9 @@ R9  the public entry points pass way-points, times, altitudes and variables to
     the gridding as received (no rebinding on the way).
 R4  the same searchsorted-minus-one cell rule is used for the per-point and the
     per-segment index helpers, on the matching grid axis.
+R6  the latitude and longitude halves of the horizontal intersection are mirror
+    images of each other, up to a consistent one-to-one renaming of temporaries
+    (whose own statements must then mirror each other too).
 """
 
 from __future__ import annotations
@@ -155,6 +166,124 @@ def rule_lookup(ctx, m, rule):
                        'spaced axis, which the gridder does not require', line=x.lineno)
 
 
+def _root(e):
+    while isinstance(e, (ast.Subscript, ast.Attribute, ast.Starred)):
+        e = e.value
+    return e.id if isinstance(e, ast.Name) else None
+
+
+def _kind_of(name: str) -> str:
+    t = re.split(r'[_\W]+', name.lower())
+    return 'cell index' if any(w in t for w in ('indices', 'index', 'idx', 'idxs', 'cells', 'cell')) else 'coordinate'
+
+
+def _produced_leaves(prog, fi, e, at_fn, path=(), depth=0):
+    """leaves of a returned structure: {access path: local name}; a path step is (position, field name or None)"""
+    from ..resolve import resolve_class_call
+    if depth > 6:
+        return None
+    if isinstance(e, ast.Name):
+        d = single_def_value(at_fn, e.id)
+        if isinstance(d, (ast.Tuple, ast.Call)) and (isinstance(d, ast.Tuple) or resolve_class_call(prog, fi, d) is not None):
+            return _produced_leaves(prog, fi, d, at_fn, path, depth + 1)
+        return {path: e.id}
+    if isinstance(e, ast.Tuple):
+        out = {}
+        for i, x in enumerate(e.elts):
+            sub = _produced_leaves(prog, fi, x, at_fn, path + ((i, None),), depth + 1)
+            if sub is None:
+                return None
+            out.update(sub)
+        return out
+    if isinstance(e, ast.Call):
+        ci = resolve_class_call(prog, fi, e)
+        if ci is None or any(isinstance(a, ast.Starred) for a in e.args) or any(k.arg is None for k in e.keywords):
+            return None
+        fields = list(ci.annotated_fields())
+        got = dict(zip(fields, e.args))
+        got.update({k.arg: k.value for k in e.keywords})
+        out = {}
+        for i, f in enumerate(fields):
+            if f not in got:
+                return None
+            sub = _produced_leaves(prog, fi, got[f], at_fn, path + ((i, f),), depth + 1)
+            if sub is None:
+                return None
+            out.update(sub)
+        return out
+    return None
+
+
+def _consumed_leaves(fn_node, target, path=(), depth=0):
+    """leaves of the receiving side: [(access path, local name)]; a step is a position (int) or a field name (str).
+    A received name that is only taken apart again (`x = name.field`, `x = name[0]`, `a, b = name`) is followed."""
+    if isinstance(target, (ast.Tuple, ast.List)):
+        out = []
+        for i, t in enumerate(target.elts):
+            sub = _consumed_leaves(fn_node, t, path + (i,), depth + 1)
+            if sub is None:
+                return None
+            out += sub
+        return out
+    if not isinstance(target, ast.Name) or depth > 6:
+        return None
+    out = []
+    seen = set()
+    for t, st, how in stores_to(fn_node):
+        v = getattr(st, 'value', None)
+        if how != 'assign' or v is None or len(st.targets) != 1 or id(st) in seen:
+            continue
+        seen.add(id(st))
+        if isinstance(v, ast.Attribute) and isinstance(v.value, ast.Name) and v.value.id == target.id:
+            sub = _consumed_leaves(fn_node, st.targets[0], path + (v.attr,), depth + 1)
+        elif isinstance(v, ast.Subscript) and isinstance(v.value, ast.Name) and v.value.id == target.id \
+                and isinstance(v.slice, ast.Constant) and isinstance(v.slice.value, int):
+            sub = _consumed_leaves(fn_node, st.targets[0], path + (v.slice.value,), depth + 1)
+        elif isinstance(v, ast.Name) and v.id == target.id and isinstance(st.targets[0], (ast.Tuple, ast.List)):
+            sub = _consumed_leaves(fn_node, st.targets[0], path, depth + 1)
+        else:
+            continue
+        if sub is None:
+            return None
+        out += sub
+    return out or [(path, target.id)]
+
+
+def rule_result_roles(ctx, m, fn):
+    """The four arrays the horizontal intersection returns (point latitudes / longitudes, cell latitude / longitude
+    indices) are received under names of the same axis and kind, whatever the container (nested tuples, records read
+    by position or by field)."""
+    from ..resolve import resolve_call
+    prog = ctx.prog
+    hz = m.func('Gridder._trajectory_intersection_points_and_cells_horizontal')
+    rets = [r for r in walk_no_nested(hz.node) if isinstance(r, ast.Return) and r.value is not None]
+    unp = next((st for t, st, how in stores_to(fn.node) if isinstance(st, ast.Assign) and isinstance(st.value, ast.Call)
+                and (lambda c: c is not None and c.node is hz.node)(resolve_call(prog, fn, st.value))), None)
+    if unp is None or len(rets) != 1 or len(unp.targets) != 1:
+        ctx.undecided('C05-R2', fn, 'intersection result', 'call of the horizontal intersection / its single return not found')
+    ok = [norm(a) for a in unp.value.args] == ['lats', 'lons'] and not unp.value.keywords
+    ctx.ob('C05-R2', fn, 'horizontal intersection called with (lats, lons)', ok, 'way-points as received' if ok else
+           'latitudes / longitudes are passed to the intersection in the wrong order', line=unp.lineno)
+    produced = _produced_leaves(prog, hz, rets[0].value, hz.node)
+    consumed = _consumed_leaves(fn.node, unp.targets[0])
+    if produced is None or consumed is None:
+        ctx.undecided('C05-R2', fn, 'intersection result', 'returned / received structure is not tuples or records of names')
+    n = 0
+    for path, name in consumed:
+        cands = [nm for pp, nm in produced.items() if len(pp) == len(path)
+                 and all(step == (i if isinstance(step, int) else f) for step, (i, f) in zip(path, pp))]
+        if len(cands) != 1:
+            ctx.undecided('C05-R2', fn, f'intersection result → {name}', f'access path {path} does not name one returned array')
+        n += 1
+        got, want = (axis_of(name), _kind_of(name)), (axis_of(cands[0]), _kind_of(cands[0]))
+        ok = got == want and got[0] is not None
+        ctx.ob('C05-R2', fn, f'intersection result {"".join(f"[{p}]" if isinstance(p, int) else "." + p for p in path)} → {name}', ok,
+               f'{want[0]} {want[1]} array received as such' if ok else
+               f'the {want[0]} {want[1]} array `{cands[0]}` of the intersection result is received as `{name}` '
+               f'({got[0]} {got[1]}): latitude/longitude (or coordinate/index) arrays are swapped', line=unp.lineno)
+    ctx.floor('C05-R2/result', n, 4, 'arrays received from the horizontal intersection')
+
+
 POINT_ROLES = ('lats', 'altitudes', 'times', 'state_variables')
 PI_ATOMS = ('np.pi', 'numpy.pi', 'math.pi', 'pi')
 
@@ -225,7 +354,7 @@ def rule_split_points(ctx, m):
     element k; the inserted longitude is ±π on the side the path is on."""
     for part, qn in SPLITS:
         sp = m.func(qn)
-        view = SeqView(sp)
+        view = SeqView(sp, ctx.prog)
         n = 0
         for ri, r in enumerate(view.returns()):
             tag = f'{part} part, return #{ri + 1}'
@@ -263,7 +392,7 @@ def rule_split_points(ctx, m):
                         ok = side == want
                         ctx.ob('C05-R1', sp, f'{tag}: meets the antimeridian at {shown[:60]}', ok,
                                'the side of ±π the path is on' if ok else
-                               'the inserted longitude is on the wrong side of the antimeridian', line=r.lineno)
+                               'the inserted longitude is on the wrong side of the antimeridian', line=getattr(elems[0][1], 'lineno', r.lineno))
                         continue
                     f, marks, _, shown = elem_form(view, elems[0], base)
                     n += 1
@@ -280,7 +409,7 @@ def rule_split_points(ctx, m):
                             why = (f'the inserted antimeridian point\'s value is `{shown[:90]}`, not a copy of the crossing segment\'s '
                                    f'starting element {base}[{k}]: the pieces of that segment on this side of the antimeridian are '
                                    'reported with the altitude / time cell (state value) of a different point than the segment\'s start')
-                    ctx.ob('C05-R1', sp, f'{tag}: inserted point takes {role}[{k}]', ok, why, line=r.lineno)
+                    ctx.ob('C05-R1', sp, f'{tag}: inserted point takes {role}[{k}]', ok, why, line=getattr(elems[0][1], 'lineno', r.lineno))
         ctx.floor(f'C05-R1/{part}', n, 4, f'inserted-point values in the {part} split (latitude, altitude, time, state)')
 
 
@@ -355,13 +484,7 @@ def run(ctx):
     ok = len(ret) == 1 and isinstance(ret[0].value, ast.Tuple) and [norm(e) for e in ret[0].value.elts] == want
     ctx.ob('C05-R2', fn, 'outputs returned in the documented order', ok, 'lat, lon, altitude, time, state, integrated' if ok else
            'the output tuple order changed: callers read the wrong arrays')
-    unp = next((st for t, st, how in stores_to(fn.node) if isinstance(st, ast.Assign) and isinstance(st.value, ast.Call)
-                and call_name(st.value) == 'self._trajectory_intersection_points_and_cells_horizontal'), None)
-    ok = unp is not None and norm(unp.targets[0]) == ('((all_subsegment_point_lats, all_subsegment_point_lons), '
-                                                      '(all_subsegment_lat_indices, all_subsegment_lon_indices))') \
-        and [norm(a) for a in unp.value.args] == ['lats', 'lons']
-    ctx.ob('C05-R2', fn, 'intersection result unpacked as ((lats, lons), (lat idx, lon idx))', ok,
-           'roles of the four arrays agree' if ok else 'latitude/longitude arrays of the intersection result are swapped')
+    rule_result_roles(ctx, m, fn)
 
     # ---- R1: split repeats element i -------------------------------------------------
     try:
@@ -386,6 +509,40 @@ def run(ctx):
     def mirror(txt: str) -> str:
         return re.sub(r'[A-Za-z]+', lambda mo: swap.get(mo.group(0), mo.group(0)), txt)
 
+    hz_locals = {x.id for x in ast.walk(hz.node) if isinstance(x, ast.Name) and isinstance(x.ctx, ast.Store)}
+    ren: dict[str, str] = {}
+
+    def mirror_eq(a_txt: str, b_txt: str) -> bool:
+        """b is the lat↔lon mirror image of a, up to a consistent one-to-one renaming of temporaries"""
+        ta = re.findall(r'[A-Za-z_]\w*|\S', mirror(a_txt))
+        tb = re.findall(r'[A-Za-z_]\w*|\S', b_txt)
+        if len(ta) != len(tb):
+            return False
+        trial = dict(ren)
+        for x, y in zip(ta, tb):
+            if x == y and trial.get(x, x) == x:
+                continue
+            if x in hz_locals and y in hz_locals and trial.get(x, y) == y and \
+                    all(v != y or k == x for k, v in trial.items()):
+                trial[x] = y
+                continue
+            return False
+        ren.update(trial)
+        return True
+
+    def rooted(name):
+        """top-level statements that bind or alter local `name`, in order"""
+        out = []
+        for st in hz.node.body:
+            if isinstance(st, ast.Assign) and len(st.targets) == 1 and _root(st.targets[0]) == name:
+                out.append(st)
+            elif isinstance(st, ast.AugAssign) and _root(st.target) == name:
+                out.append(st)
+            elif isinstance(st, ast.Expr) and isinstance(st.value, ast.Call) and isinstance(st.value.func, ast.Attribute) \
+                    and _root(st.value.func.value) == name:
+                out.append(st)
+        return out
+
     tops = {}
     for st in hz.node.body:
         if isinstance(st, ast.Assign) and len(st.targets) == 1:
@@ -397,12 +554,27 @@ def run(ctx):
             continue
         a, b = tops[tgt], tops[mt]
         npairs += 1
-        ok = len(a) == len(b) and all(mirror(norm(x.value)) == norm(y.value) for x, y in zip(a, b))
-        bad = next(((x, y) for x, y in zip(a, b) if mirror(norm(x.value)) != norm(y.value)), None)
+        bad = next(((x, y) for x, y in zip(a, b) if not mirror_eq(norm(x.value), norm(y.value))), None)
+        ok = len(a) == len(b) and bad is None
         ctx.ob('C05-R6', hz, f'{tgt} ↔ {mt}', ok, 'latitude and longitude halves are mirror images' if ok else
                (f'latitude and longitude are treated differently: `{norm(bad[0].value)[:60]}` vs '
                 f'`{norm(bad[1].value)[:60]}`' if bad else 'one axis has more definitions than the other'),
                line=(bad[1].lineno if bad else sts[0].lineno))
+    # temporaries that stand for each other in the two halves must themselves be built and altered as mirror images
+    done = set()
+    for _ in range(8):
+        todo = [(x, y) for x, y in ren.items() if x != y and (x, y) not in done]
+        if not todo:
+            break
+        for x, y in todo:
+            done.add((x, y))
+            a, b = rooted(x), rooted(y)
+            bad = next(((p, q) for p, q in zip(a, b) if not mirror_eq(norm(p), norm(q))), None)
+            ok = len(a) == len(b) and bad is None
+            ctx.ob('C05-R6', hz, f'temporary {x} ↔ {y}', ok, 'built and altered as mirror images' if ok else
+                   (f'latitude and longitude are treated differently: `{norm(bad[0])[:60]}` vs `{norm(bad[1])[:60]}`'
+                    if bad else 'one axis has more statements on its temporary than the other'),
+                   line=(bad[1].lineno if bad else (b[0].lineno if b else hz.node.lineno)))
     ctx.floor('C05-R6', npairs, 12, 'mirrored lat/lon statement pairs')
 
     # ---- R7: guarded divisions are guarded exactly on their denominator ------------------
